@@ -4,7 +4,7 @@ import json, glob
 rows = []
 for f in sorted(glob.glob('/verif/seeded/*/meta.json')):
     m = json.load(open(f))
-    first = "missed, check strengthened" if ("MISSED" in (m.get("history") or "") and m["id"] not in ("C14-a","C06-b","C01-c")) else "caught"
+    first = "missed, check strengthened" if ("MISSED" in (m.get("history") or "") and m["id"] not in ("C14-a","C06-b","C01-c","C16-c")) else "caught"
     rows.append((m["id"], m["property"], (m.get("summary") or "").split(". ")[0][:220].replace("|", "/"),
                  (m.get("needs_to_manifest") or "")[:200].replace("\n", " ").replace("|", "/"), ", ".join(m["caught_by"]) or "-", first, (m.get("history") or "").replace("|", "/")))
 out = ["# Independently seeded changes", "",
